@@ -39,6 +39,9 @@ def classify(atom):
         return "other", {}
     if atom.kind == "nat_ok":
         return "nat", {}
+    if atom.kind == "pycountry":
+        # truthiness of the lookup result (a Country object or None): `if not self.country`
+        return "known", {"op": "IsNot", "key": atom.args[0]}
     if atom.kind == "cmp":
         op, a, b = atom.args
         if op in ("Is", "IsNot") and (a is None or b is None):
@@ -290,6 +293,20 @@ def nat_intrinsic(it, args, kwargs, node):
     raise Raised(e)
 
 
+def natdigits_intrinsic(it, args, kwargs, node):
+    """compute_national_checksum on symbolic components: an opaque string (the validators of the pinned tree never call it; a tree
+    whose validators do works on a text that is no longer the text under validation, which the arithmetic rules then report)."""
+    from . import ops
+    if not ops.contains_symbolic(list(args) + list(kwargs.values())):
+        f = it.program.get("schwifty.bban.compute_national_checksum")
+        del it.intrinsics[f.qualname]
+        try:
+            return it.call_func(f, args, kwargs, node)
+        finally:
+            it.intrinsics[f.qualname] = natdigits_intrinsic
+    return Sym("call", "schwifty.bban.compute_national_checksum", tuple(ops.freeze(a) for a in args))
+
+
 class IbanModel(Model):
     cls_qual = "schwifty.iban.IBAN"
 
@@ -304,7 +321,11 @@ class IbanModel(Model):
 
     def intrinsics(self):
         f = self.prog.get("schwifty.bban.BBAN.validate_national_checksum")
-        return {f.qualname: nat_intrinsic}
+        out = {f.qualname: nat_intrinsic}
+        g = self.prog.find("schwifty.bban.compute_national_checksum")
+        if g is not None:
+            out[g.qualname] = natdigits_intrinsic
+        return out
 
     def build_spec(self):
         A = self.alpha
